@@ -474,6 +474,27 @@ func cmdXform(args []string) int {
 			add(t, fmt.Sprintf("contlead:%d", v), []int{10000, 65536, 4096}[(v+ti)%3], -1, []string{"NONE", "FPAQ"}[ti%2])
 		}
 	}
+	// capacities: exactly v distinct code points around the size of the symbol table of UTF, fixed-width records (dense short
+	// matches) for the ROLZ family, a disk image of several MiB (every byte value frequent, one dominant) for SRT
+	for _, v := range []int{32766, 32767, 32768, 32769, 255, 256, 2047, 2048, 2049} {
+		add("UTF", fmt.Sprintf("codepoints:%d", v), 600000, -1, "NONE")
+		if v > 32000 {
+			add("TEXT+UTF", fmt.Sprintf("codepoints:%d", v), 600000, -1, "NONE")
+		}
+	}
+	for w := 8; w <= 16; w++ {
+		for ti, t := range []string{"ROLZ", "ROLZX", "LZP", "LZ"} {
+			if ti < 2 || *thorough || w%3 == 0 {
+				add(t, fmt.Sprintf("records:%d", w), []int{65536, 300000, 20000}[(w+ti)%3], -1, "NONE")
+			}
+		}
+	}
+	for ti, t := range []string{"SRT", "SRT+ZRLT", "BWTS"} {
+		if ti < 2 || *thorough {
+			cases = append(cases, xformCase{ID: id, T: t, Shape: "diskimg", Size: 7<<20 + 4096*ti, Seed: *seed*1009 + int64(id), Hint: -1, Entropy: "NONE", Jobs: 1})
+			id++
+		}
+	}
 	// executable images whose code section starts at every file offset modulo 4
 	for _, off := range []int{0x100, 0x101, 0x102, 0x103, 0x1000, 0x1001} {
 		for ti, t := range []string{"EXE", "EXE+LZ"} {
